@@ -204,6 +204,24 @@ def streams(rng, tier):
             e[3][0] = e[3][0] + [e[3][0][0]] * rng.randint(1, 2)      # the same column summed again
         agg.append({"op": "t", "e": e})
     out.append(("agg", agg))
+
+    # column labels that are not strings: equal-but-differently-written labels (2024 == 2024.0, 1 == 1.0 == True) are
+    # different columns with different sanitised forms, in whichever order they were first seen by the process
+    labels = []
+    LAB = [2024, 2024.0, "2024", 1, 1.0, True, "1", 0, False, 0.0, -0.0, "a", None, 7, 7.5, "7_5", 2 ** 61 - 1 + 3, 3]
+    for i in range(150 if quick else 1500):
+        w = rng.randint(2, 4)
+        pool = []
+        for x in rng.sample(LAB, len(LAB)):              # equal-but-differently-written labels never meet in one case
+            if x is not None and str(x) in [str(y) for y in pool]:
+                continue                                      # 1 and "1" are one label for the model (labels are seen as text)
+            if isinstance(x, str) or x is None or all(isinstance(y, str) or y is None or y != x for y in pool):
+                pool.append(x)
+        pool = pool[:4]
+        t = ["tlit", [rng.choice(pool) for _ in range(w)], "vecs"]
+        e, _ = _gen_agg(rng, t, w, pool)
+        labels.append({"op": "t", "e": e})
+    out.append(("agg-labels", labels))
     return out
 
 
@@ -236,8 +254,8 @@ def _ev_fit_pair(ev_a, ev_b, a, b, rec, path):
 def _names(x):
     from serif import Table
     if isinstance(x, Table):
-        return {"t": list(x.column_names())}
-    return {"v": x.name}
+        return {"t": [_s(n) for n in x.column_names()]}
+    return {"v": _s(x.name)}
 
 
 def ev_v(e, rec, path=""):
@@ -518,8 +536,14 @@ def __getattr__(name):
     raise AttributeError(name)
 
 
+def _s(n):
+    """Column labels that are not strings (ints, floats, bools: only in the "agg-labels" stream) are seen by the model
+    and the oracle through str(), which is what the sanitiser starts from."""
+    return n if n is None or isinstance(n, str) else str(n)
+
+
 def _cn(n):
-    return "None" if n is None else f"(Q {cstr(n)})"
+    return "None" if n is None else f"(Q {cstr(_s(n))})"
 
 
 _KEEP = {"copy": "KCopy", "slice": "KSlice", "fit": "KSlice", "mask": "KMask", "index": "KIndex", "sort": "KSort",
@@ -691,7 +715,7 @@ def oracle(case, obs):
                 return f"vector-{k}: {what}: expected {want[0]!r}, got {val!r} at {e}"
             continue
         if k == "tlit":
-            want, what = list(e[1]), "a table built from named columns keeps the names"
+            want, what = [_s(n) for n in e[1]], "a table built from named columns keeps the names"
         elif k == "tofvecs":
             want, what = [got(c) for c in e[1]], "a table built from vectors keeps each vector's name"
         elif k == "appt":
